@@ -90,7 +90,7 @@ fn insert_section(b: &[u8], secs: &[(u8, usize, usize)], before: usize, sec: &[u
 pub fn mutate(r: &mut Rng, seed: &[u8]) -> (Vec<u8>, &'static str) {
     let secs = sections(seed);
     let mut b = seed.to_vec();
-    let k = r.weighted(&[8, 12, 6, 6, 5, 5, 5, 4, 4, 4, 4, 4, 3, 3, 3, 2, 5, 0, 2, 3]);
+    let k = r.weighted(&[8, 12, 6, 6, 5, 5, 5, 4, 4, 4, 4, 4, 3, 3, 3, 2, 5, 0, 2, 3, 1]);
     match k {
         0 => {
             if b.len() > 9 {
@@ -257,6 +257,37 @@ pub fn mutate(r: &mut Rng, seed: &[u8]) -> (Vec<u8>, &'static str) {
         }
         16 => inflate_count(r, b),
         19 => empty_body(r, b),
+        20 => {
+            // a body whose groups of local declarations add up to the top of the u32 range and beyond: each count is fine on its
+            // own, their sum is what a reader has to refuse (wasmparser does: "too many locals")
+            let groups: &[(u32, u8)] = match r.below(6) {
+                0 => &[(u32::MAX, 0x7f), (1, 0x7e)],
+                1 => &[(0x8000_0000, 0x7f), (0x8000_0000, 0x7f)],
+                2 => &[(u32::MAX, 0x7f)],
+                3 => &[(u32::MAX - 1, 0x7d), (1, 0x7c), (1, 0x7f)],
+                4 => &[(50_000, 0x7f), (1, 0x7e)],
+                _ => &[(1, 0x7f), (u32::MAX, 0x7e), (u32::MAX, 0x7d)],
+            };
+            let mut body = leb(groups.len() as u32);
+            for (c, t) in groups {
+                body.extend(leb(*c));
+                body.push(*t);
+            }
+            body.push(0x0b);
+            let mut code = vec![1u8];
+            code.extend(leb(body.len() as u32));
+            code.extend(body);
+            let mut m: Vec<u8> = vec![0, 0x61, 0x73, 0x6d, 1, 0, 0, 0, 1, 4, 1, 0x60, 0, 0, 3, 2, 1, 0];
+            m.extend(section(10, &code));
+            if r.chance(1, 3) {
+                // the same module nested in a component
+                let mut c: Vec<u8> = vec![0, 0x61, 0x73, 0x6d, 0x0d, 0, 1, 0, 1];
+                c.extend(leb(m.len() as u32));
+                c.extend(m);
+                m = c;
+            }
+            (m, "huge-local-groups")
+        }
         18 => {
             // the seed (or an empty component) wrapped into components nested inside each other: parsing recurses per level
             let header: &[u8] = &[0, 0x61, 0x73, 0x6d, 0x0d, 0, 1, 0];
